@@ -23,7 +23,7 @@ def run(ck, replay=None):
                       'setter or a closing writer acts, at least two actors; distinct = different action sequences.')
     ck.assumptions += [
         'a getter starts after the pipe has been opened by at least one writer (murex wiring)',
-        "GetDataType's cancelled branch reads the type without the lock; the trace specification accepts the value before or after a concurrent SetDataType there",
+        "GetDataType reads the type under the mutex in both branches (since fix a6796cf); the trace specification demands the exact current type",
     ]
     mc = {}
     for cfg in ('MCStreamTypes.cfg', 'MCStreamTypesLive.cfg'):
